@@ -32,7 +32,7 @@ fn spec(tier: Tier) -> CheckSpec {
 		rule: "exhaustive enumeration, every case executed on the real code in isolated worker processes (panic hook + catch_unwind + death attribution by journal): \
 			(std) every function member of the live `std` object applied to every tuple of its arity (required..min(total,3) args, 27-value boundary alphabet; arity 4 over an 11-value alphabet; all-named style for arity<=2) ; \
 			(src) every token sequence up to the length bound over the core/full token alphabets joined by space and by nothing, and every character string up to the bound over a 17-char alphabet, through default, legacy and syntax-tree parsers and (if accepted) evaluation+manifestation; \
-			(depth) 9 recursion shapes x frame limits x every depth 1..2L, and every dependency digraph on 3 nodes x 4 binding kinds; \
+			(depth) 10 recursion shapes x frame limits x every depth 1..2L, 22 divergent programs (recursion through calls, fields of fresh objects, arrays, asserts, object locals, std functions, manifestation) x frame limits which must end in the frame-limit / infinite-recursion error, and every dependency digraph on 3 nodes x 4 binding kinds; \
 			(hist) explicit-state BFS over histories of evaluation outcomes on one thread/State with a probe set after every transition (model: nothing but the file cache carries over). \
 			non-trivial = distinct case text that reached evaluation (src) / distinct call text (std) / distinct (shape,L,n) (depth) / distinct history (hist)"
 			.into(),
@@ -272,7 +272,32 @@ pub fn src_case(rep: &mut Report, imp: &Imp, space: &str, text: &str, cost: u32)
 
 // ---------------------------------------------------------------------------------------------
 
-pub const SHAPES: &[&str] = &["direct", "mutual", "field", "thunk-chain", "array", "default-arg", "foldl", "super-chain", "nested-call"];
+pub const SHAPES: &[&str] = &["direct", "mutual", "field", "thunk-chain", "array", "default-arg", "foldl", "super-chain", "nested-call", "object-chain"];
+/// programs that never terminate: the only acceptable outcomes are the frame-limit error or detected infinite recursion
+pub const DIVERGENT: &[&str] = &[
+	"local f(x) = f(x + 1); f(0)",
+	"local f(x) = 1 + f(x + 1); f(0)",
+	"local f(x) = { v: f(x + 1).v }; f(0).v",
+	"local f(x) = { me: self, v: f(x + 1).v }; f(0).v",
+	"local f(x) = [f(x + 1)[0]]; f(0)[0]",
+	"local f(x) = { v: f(x + 1) }; std.length(std.toString(f(0)))",
+	"local f(x) = { v: f(x + 1) }; f(0)",
+	"local f(x) = [f(x + 1)]; f(0)",
+	"local o = { a: self.b, b: self.a }; o.a",
+	"local a = [a[0]]; a[0]",
+	"local f(o) = f(o { n: super.n + 1 }); f({ n: 0 })",
+	"local f(o) = f(o + { a+: [1] }).a; f({ a: [] })",
+	"local f(x) = x { v: f(self { n+: 1 }).v }; f({ n: 0 }).v",
+	"local f(x) = std.map(function(y) f(y)[0], [x]); f(0)[0]",
+	"local f(x) = std.foldl(function(a, b) f(b), [x], 0); f(0)",
+	"local f(x) = { [if true then 'k']: f(x + 1).k }; f(0).k",
+	"local f(x) = { assert f(x + 1).k == 1, k: 1 }; f(0).k",
+	"local f(x) = { local l = f(x + 1).k, k: l }; f(0).k",
+	"local f(x) = std.get(f(x + 1), 'k'); f(0)",
+	"local f(x) = std.objectValues(f(x + 1)); f(0)",
+	"{ a: $.a.b }.a",
+	"local x = { y: x.y.z }; x.y",
+];
 
 pub fn depth_program(shape: &str, n: usize) -> (String, Option<f64>) {
 	// returns program and, when it is supposed to succeed, its value
@@ -292,6 +317,7 @@ pub fn depth_program(shape: &str, n: usize) -> (String, Option<f64>) {
 			s.push_str(").a");
 			(s, Some(n as f64))
 		}
+		"object-chain" => (format!("local f(n) = {{ v: if n == 0 then 0 else 1 + f(n - 1).v }}; f({n}).v"), Some(n as f64)),
 		"nested-call" => {
 			// expression nesting rather than recursion: id(id(id(...)))
 			let mut s = String::from("local id(x) = x; ");
@@ -370,6 +396,29 @@ fn part_depth(shard: &Shard, journal: &Journal, rep: &mut Report) {
 			}
 			rep.sample(|| json!({"shape": shape, "limit": l, "first_failing_depth": first_fail}));
 			rep.count(&format!("first_fail {shape} L={l}"), first_fail.unwrap_or(0) as u64);
+		}
+	}
+	// divergent programs: an error of the two recursion classes, under every frame limit
+	for code in DIVERGENT {
+		for &l in limits {
+			let my = shard.mine(idx);
+			idx += 1;
+			if !my {
+				continue;
+			}
+			journal.note(idx - 1, &format!("divergent L={l}"), code);
+			let o = run_limited(&imp, l, code);
+			rep.case(Some(fnv(format!("divergent/{l}/{code}").as_bytes())), outcome_key(&o));
+			let ok = matches!(&o, Out::Err(c, _) if c == "StackOverflow" || c == "InfiniteRecursionDetected");
+			if !ok {
+				rep.violation(Violation {
+					class: format!("divergent program does not end in the frame-limit error: {}", match &o { Out::Json(_) => "value".to_owned(), Out::Err(c, _) => format!("error {c}"), Out::Panic(p) => panic_class(p) }),
+					witness: (*code).to_owned(),
+					detail: format!("frame limit {l}: {}", o.short()),
+					cost: 1,
+					replay: json!({"kind": "code", "code": code}),
+				});
+			}
 		}
 	}
 	// thorough: very deep recursion under a huge frame limit (native stack growth)
